@@ -1,7 +1,8 @@
 """C02 — per-property knobs of ./check (see DESIGN.md §6 C02, notes/C02.md)."""
 THEOREMS_TIED = ["Rustic.Props.C02.used_key_attributed", "Rustic.Props.C02.decision_table",
                  "Rustic.Props.C02.prune_covers_used_keys", "Rustic.Props.C02.prune_preserves_readable",
-                 "Rustic.Props.C02.marked_packs_stay", "Rustic.Props.C02.recover_brings_back"]
+                 "Rustic.Props.C02.marked_packs_stay", "Rustic.Props.C02.recover_brings_back",
+                 "Rustic.Props.C02.normal_index_entry_wins_over_mark"]
 
 TRUSTED = [
     "hand-written model lean/Rustic/Model/{Prune,Repo}.lean of commands/prune.rs (PrunePlan::new, count_used_blobs, PackInfo::from_pack, "
@@ -24,19 +25,19 @@ ASSUMPTIONS = [
 ]
 RULE = ("ops from harness/src/c02.rs, one splitmix64 PRNG (VERIF_SEED): `hist` (generated first) = real histories: backup of an evolving source "
         "(also of an earlier version again: blobs living in marked packs are uploaded again), concurrent backup pairs, tree/data id collision, forget, "
-        "resurrect (`u`), index duplication, a second handle with a stale index whose backup overlaps the prunes in between (`s`…`a<k>`), prune with "
-        "random options (keep-delete 0/1h/23h, instant-delete, limits) and injected time; 3/8 of the histories start with one of three shapes "
-        "{keep-delete>0 + re-upload of marked blobs + repack of the partly used new packs; backup overlapping the marking prune then prune (often "
-        "instant); packs older than keep-delete when marked, second prune right away, then the data is needed again}, 2/8 are purely random. "
+        "resurrect (`u`), index duplication, a second handle with a stale index whose backup overlaps the prunes in between (`s`…`a<k>`), a backup that is HALF DONE while prune plans (`h<k>`: its pack files are uploaded, index and snapshot not yet written, so a non-instant prune marks the packs as unreferenced; `e`: it finishes — the packs are then listed normally AND marked — followed by a prune past keep-delete that must keep them; `h` without `e` = interrupted backup), prune with "
+        "random options (keep-delete 0/1h/23h, instant-delete, limits) and injected time; 8/10 of the histories start with one of four shapes "
+        "{prune while a backup is half done, then the backup finishes, then prune past keep-delete; keep-delete>0 + re-upload of marked blobs + repack of the partly used new packs; backup overlapping the marking prune then prune (often "
+        "instant); packs older than keep-delete when marked, second prune right away, then the data is needed again}, 2/10 are purely random. "
         "`plan` = crafted index states (1-3 index files, <= 16 packs, blob ids from a universe of <= 8 ids used under both types, duplicate blobs "
         "inside/across packs, duplicate pack entries incl. used+marked, marked packs with times around keep-delete, missing/None times, packs missing or "
         "with wrong size, unreferenced packs, >255 duplicates, used ids absent from the index) x all option flags x limits (unlimited / sizes / 0..99 %) "
         "x pack sizers; `info` = PackInfo::from_pack on pack sequences. Non-trivial = plan with at least one decision / history with a prune; "
         "distinct by hash of (op, observation).")
-EXPLANATION = ("Theorems (lean/Rustic/Props/C02.lean, 20, none partial): from_pack accounting, stats_no_underflow, every used key attributed to a pack that is "
+EXPLANATION = ("Theorems (lean/Rustic/Props/C02.lean, 21, none partial): from_pack accounting, stats_no_underflow, every used key attributed to a pack that is "
                "kept/repacked/recovered, decision table, no pack undecided, filter_index_files rebuilds the index file of every pack that changes "
                "(RepackRebuilt derived), execution covers every used key, removals only of Delete packs unless instant-delete, marked packs stay until "
-               "keep-delete passed, recover brings back, and prune_preserves_readable: after every prefix of the executed operation list of an accepted "
+               "keep-delete passed, recover brings back, a pack that some index file lists normally is planned as unmarked whatever marked entries exist for it (never Delete / KeepMarked, not removed by a non-instant prune: normal_index_entry_wins_over_mark), and prune_preserves_readable: after every prefix of the executed operation list of an accepted "
                "plan every snapshot of a consistent repository is readable (bridge from the prune model to the C03 protocol; non-instant, and instant "
                "without early-delete-index). Correspondence: per-pack decision, all PruneStats counters, rebuilt index files, remaining used ids, and the "
                "executed storage operations (as sets per phase, phase order checked) of the real code equal the model's on every crafted case. Oracles on "
